@@ -175,6 +175,33 @@ fn job(j: &Job, tier: Tier) -> Vec<(String, String, Value)> {
             return out;
         }
     }
+    // ... and with the verifying run writing its statistics in the OTHER format (-i x.json -S y.toml -D toml and the
+    // reverse): the format of the file read is its own, whatever is written; the chain json -> toml -> json ends where
+    // it started
+    {
+        let other = if j.toml { "json" } else { "toml" };
+        let mut rd3 = common.clone();
+        let otherp = scratch.join(&format!("cross.{other}"));
+        rd3.extend(["-S".to_string(), otherp.display().to_string(), "-D".to_string(), other.to_string(), "-i".to_string(), statp.display().to_string()]);
+        let r4 = run_tool(&scratch, &j.input, &j.mode, &rd3);
+        if r4.crashed() || r4.stderr_str().contains("panicked at") || mismatch_reported(&r4) || r4.status != r1.status {
+            out.push(("roundtrip:cross-format:first-leg".into(), format!("verifying a {ext} file while writing {other}: exit {:?} vs {:?}; {}", r4.status, r1.status, r4.stderr_str().lines().find(|l| l.contains("panicked") || l.contains("mismatch")).unwrap_or("")), json!({"stats": text})));
+            return out;
+        }
+        let mut rd4 = common.clone();
+        let backp = scratch.join(&format!("back.{ext}"));
+        rd4.extend(["-S".to_string(), backp.display().to_string(), "-D".to_string(), ext.to_string(), "-i".to_string(), otherp.display().to_string()]);
+        let r5 = run_tool(&scratch, &j.input, &j.mode, &rd4);
+        if r5.crashed() || r5.stderr_str().contains("panicked at") || mismatch_reported(&r5) || r5.status != r1.status {
+            out.push(("roundtrip:cross-format:second-leg".into(), format!("verifying the {other} file while writing {ext}: exit {:?} vs {:?}; {}", r5.status, r1.status, r5.stderr_str().lines().find(|l| l.contains("panicked") || l.contains("mismatch")).unwrap_or("")), json!({"stats": text})));
+            return out;
+        }
+        let back = std::fs::read_to_string(&backp).unwrap_or_default();
+        if back != text {
+            out.push(("roundtrip:cross-format:chain-ends-elsewhere".into(), format!("{ext} -> {other} -> {ext} does not reproduce the first file"), json!({"stats": text, "back": back})));
+            return out;
+        }
+    }
     // drift: every leaf
     let doc: Value = if j.toml { match toml::from_str::<Value>(&text) { Ok(v) => v, Err(e) => { out.push(("roundtrip:unreadable".into(), format!("{e}"), json!({}))); return out; } } } else { serde_json::from_str(&text).unwrap() };
     let mut ls = Vec::new();
